@@ -430,7 +430,7 @@ def validated_before(ctx, f, an, bb, t, value_param):
     kk = kexpr.a[1][0] if (kexpr.k == "call" and kexpr.a[0].name in ("to_vec", "into", "to_owned", "from", "clone") and kexpr.a[1]) else kexpr
     vexpr = strip(an.operand_expr(t.args[2], bb, len(f.blocks[bb].stmts)))
     for b2, t2 in f.calls():
-        if not (t2.callee and t2.callee.local and t2.callee.name == "check_spec_reserved_keys"):
+        if not (t2.callee and t2.callee.local and (t2.callee.name == "check_spec_reserved_keys" or t2.callee.target() == (ctx.facts.j.get("role_anchors") or {}).get("validator"))):
             continue
         if not g.dominates(b2.idx, bb):
             continue
@@ -498,9 +498,11 @@ def run(ctx, report):
     from common import Only
     from rules import c01, c09, c10
     # "verifies under the public key it carries": the gate in decode and the typestate both rest on verify()/verify_v4 being real checks
-    c01.run(ctx, Only(report, {"VERIFY": "VERIFY", "VERIFYV4": "VERIFYV4", "NOLAUNDER": "NOLAUNDER"}))
-    c09.run(ctx, Only(report, {"BUILD": "SIZE-BUILD"}))
-    c10.run(ctx, Only(report, {"UNCOMP": "UNCOMP", "FROM": "FROM", "DIGEST": "DIGEST"}))
+    c01._own_run(ctx, Only(report, {"VERIFY": "VERIFY", "VERIFYV4": "VERIFYV4", "NOLAUNDER": "NOLAUNDER"}))
+    c09._own_run(ctx, Only(report, {"BUILD": "SIZE-BUILD"}))
+    # the shadow rule above rests on the precedence "secp256k1 entry first, then ed25519" (C01.R3)
+    c01.pubkey_rule(ctx, Only(report, {"PUBKEY": "PUBKEY"}))
+    c10._own_run(ctx, Only(report, {"UNCOMP": "UNCOMP", "FROM": "FROM", "DIGEST": "DIGEST"}))
 
 
 
